@@ -14,7 +14,7 @@ Canonical source of an argument expression inside caller F (value-level: copies 
   a local assigned exactly once     the canonical source of what it was assigned:  y = x -> x;  y = x.copy() / deepcopy(x) / dict(x) -> x;
                                     y = g(...) -> "<g>";  a, b = g(...) -> "<g>.0", "<g>.1"
   x[c] with a constant c            canon(x) + "[c]"
-  y = x.method(...)                 "<x.method>" when x is canonical
+  y = x.method(...)                 "<x.method>" when x is canonical; `self.helper()` (no arguments, one `return`) is the canonical source of what it returns
   anything else                     "?"   (NOT EXTRACTABLE: a wildcard, the assumed route is then not contradicted; listed in the status)
 a dict literal with constant keys     "{k1: canon(v1), k2: canon(v2)}" (keys sorted), "?" as soon as one value is
 callees: module-level functions (also under an import alias: `from m import f as g`), `partial(g, ...)`, a function-valued local
@@ -71,9 +71,12 @@ def _params(fn):
     a = fn.args
     return [x.arg for x in a.posonlyargs + a.args] + [x.arg for x in a.kwonlyargs]
 
+METHODS = {}
+
 class Canon:
-    def __init__(self, fn):
+    def __init__(self, fn, cls=None):
         self.fn = fn
+        self.cls = cls
         self.params = set(_params(fn)) | ({fn.args.kwarg.arg} if fn.args.kwarg else set()) | ({fn.args.vararg.arg} if fn.args.vararg else set())
         self.assigned = {}          # local name -> list of ('val', node) / ('elt', node, i) / ('other',)
         self.self_assigned = {}     # attribute of self -> list of value nodes assigned to it in this method (plain `self.a = v` statements)
@@ -150,6 +153,16 @@ class Canon:
                 return self.of(f.value, depth + 1)
             if isinstance(f, ast.Name): return '<%s>' % f.id
             if isinstance(f, ast.Attribute):
+                if isinstance(f.value, ast.Name) and f.value.id == 'self' and not e.args and not e.keywords and self.cls and depth < 5:
+                    # `self.helper()` without arguments whose body has ONE return: the value it returns, read in the helper (a private method that only
+                    # collects stored settings, `return {'center_extrema': self.center_extrema, ...}`, is transparent)
+                    tgt = _resolve_method(METHODS, self.cls, f.attr)
+                    if tgt is not None:
+                        m = METHODS[tgt]
+                        rets = [n for n in ast.walk(m) if isinstance(n, ast.Return)]
+                        if len(rets) == 1 and rets[0].value is not None and len(_params(m)) == 1:
+                            v = Canon(m, tgt.split('.')[0]).of(rets[0].value, depth + 1)
+                            if v != '?' and not v.startswith('<'): return v
                 r = self.of(f.value, depth + 1)
                 if r != '?' and not r.startswith('<'): return '<%s.%s>' % (r, f.attr)
             return '?'
@@ -158,8 +171,9 @@ class Canon:
 def extract():
     funcs, methods = load()
     routes, opaque = [], []
+    METHODS.clear(); METHODS.update(methods)
     for cname, fn in list(funcs.items()) + list(methods.items()):
-        cn = Canon(fn)
+        cn = Canon(fn, cname.split('.')[0] if '.' in cname else None)
         calls = []
         al = ALIASES.get(MODULE_OF.get(cname), {})
         own_cls = cname.split('.')[0] if '.' in cname else None
